@@ -112,6 +112,8 @@ def _proppatch(app, path, name, text, remove=False):
     if not remove:
         p.text = text
     r = mweb.call(app, "PROPPATCH", path, xml=el, content_type="text/xml")
+    if r.kind == "exception":
+        return "crashed"  # the front ends answer 500: never acceptable for a well-formed PROPPATCH
     if r.kind != "multistatus":
         return "failed"
     for st in r.statuses:
@@ -160,6 +162,8 @@ def body_web_roundtrip(value):
     name = PROPNAMES[which]
     other_before = _cfg_files(other)
     st = _proppatch(app, target + "/", name, text)
+    if st == "crashed":
+        return (False, "crashed")
     if st != "200":
         # not reported as success: nothing is promised beyond "nothing changes elsewhere"
         return (_cfg_files(other) == other_before, "not-success")
@@ -173,8 +177,14 @@ def body_web_roundtrip(value):
     # the members of the collection are untouched
     r = mweb.call(app2, "GET", target + ("/c.vcf" if which.startswith("ab-") else "/a.ics"))
     ok = ok and r.status_class == "2xx"
-    # remove -> not found
-    if _proppatch(app2, target + "/", name, None, remove=True) == "200":
+    # remove -> not found (a <remove> of a property that is set is answered 200, never with a crash)
+    rm = _proppatch(app2, target + "/", name, None, remove=True)
+    if rm != "200":
+        return (False, "remove-" + rm)
+    # ... and removing it once more (now unset) is a no-op, not an error (RFC 4918 14.23)
+    if _proppatch(app2, target + "/", name, None, remove=True) == "crashed":
+        return (False, "remove-unset-crashed")
+    if True:
         Wb.open_store_from_path.cache_clear()
         app3 = mweb.make_app()
         got = _propfind(app3, target + "/", name)
@@ -182,7 +192,8 @@ def body_web_roundtrip(value):
             # DAV:displayname falls back to the directory name when unset
             ok = ok and got == ("200", target.rsplit("/", 1)[1])
         else:
-            ok = ok and got[0] == "404"
+            # gone: not found, or (DAV:comment, whose getter maps "unset" to an empty value) present but empty
+            ok = ok and (got[0] == "404" or got == ("200", None))
     return (ok, "roundtrip")
 
 
@@ -266,6 +277,8 @@ def body_history(steps, backend_git):
         pname = "displayname" if prop == 0 else "color"
         val = (VALS if prop == 0 else COLS)[vi]
         code = _proppatch(app, cols[ci] + "/", PROPNAMES[pname], val, remove=bool(remove))
+        if code == "crashed":
+            return (False, "crashed")
         if code == "200":
             model[ci][pname] = None if remove else val
         if not check(app):
@@ -281,6 +294,132 @@ def h_history(steps: list[int], backend_git: bool) -> bool:
     post: _
     """
     return run(body_history, steps, backend_git)
+
+
+# ------------------------------------------------------------------ several properties in one request; creation with properties
+MPROPS = [("displayname", ["Home", "a  b"]), ("color", ["#00ff00", "#0000ff80"]), ("comment", ["x y", "%(z)s"]),
+          ("order", ["3", "10"])]
+
+
+def _multi_request(app, method, path, instr):
+    """instr: list of (set?, property name, value).  Returns {property: status} from the answer, or None."""
+    root = {"PROPPATCH": "{DAV:}propertyupdate", "MKCOL": "{DAV:}mkcol",
+            "MKCALENDAR": "{urn:ietf:params:xml:ns:caldav}mkcalendar"}[method]
+    el = Wd.ET.Element(root)
+    for (is_set, pname, val) in instr:
+        prop = Wd.ET.SubElement(Wd.ET.SubElement(el, "{DAV:}set" if is_set else "{DAV:}remove"), "{DAV:}prop")
+        p_ = Wd.ET.SubElement(prop, PROPNAMES[pname])
+        if is_set:
+            p_.text = val
+    r = mweb.call(app, method, path, xml=el, content_type="text/xml")
+    out = {}
+    if r.kind == "multistatus":
+        for st in r.statuses:
+            for ps in st.propstat or []:
+                out[ps.prop.tag] = ps.statuscode[:3]
+        return r, out
+    if r.kind == "xml":
+        for ps in r.value[1].iter("{DAV:}propstat"):
+            code = ps.find("{DAV:}status").text.split(" ")[1]
+            for pr in ps.find("{DAV:}prop"):
+                out[pr.tag] = code
+        return r, out
+    return r, None
+
+
+def body_multi(how, a, b, va, vb, restart_between):
+    """Several properties in ONE request: a PROPPATCH with two <set> instructions, or a <set> and a <remove>; an
+    extended MKCOL / MKCALENDAR that sets two properties on the collection it creates.  Every property reported 200
+    reads back as written (and a removed one is gone) - at once, after a restart, and after a second request of the
+    same kind; the members and the properties of the other calendar are untouched."""
+    from xv.core import picks, untraced
+    how, a, b, va, vb, restart_between = picks((how, a, b, va, vb, restart_between), (4, len(MPROPS), len(MPROPS), 2, 2, "bool"))
+    with untraced():
+        import xandikos.web as Wb
+        backend = ctx.PART
+        if a == b:
+            return (True, "pre-invalid")
+        mweb.fresh_world({"a.ics": b"xa"}, {}, cfg=backend)
+        if backend == "git":
+            mstore.install_state("tree", mweb.ROOT + CAL2, {"a.ics": b"xa"})
+            mweb.set_type(mweb.ROOT + CAL2, "calendar")
+        else:
+            mstore.install_state("tree", mweb.ROOT + CAL2, {"a.ics": b"xa"}, with_config=b"[DEFAULT]\ntype = calendar\n\n")
+        app = mweb.make_app()
+        (pa, vals_a), (pb, vals_b) = MPROPS[a], MPROPS[b]
+        kind = ["proppatch-set-set", "proppatch-set-remove", "mkcol", "mkcalendar"][how]
+        model = {}
+
+        def restart():
+            Wb.open_store_from_path.cache_clear()
+            return mweb.make_app()
+
+        def check(app_, target):
+            for pname, want in model.items():
+                got = _propfind(app_, target + "/", PROPNAMES[pname])
+                if want is None:
+                    if pname == "displayname":
+                        if got != ("200", target.rsplit("/", 1)[1]):
+                            return False
+                    elif not (got[0] == "404" or got == ("200", None)):
+                        return False
+                elif got != ("200", want):
+                    return False
+            return True
+
+        if kind.startswith("proppatch"):
+            target = mweb.CAL
+            other_before = _cfg_files(mweb.ROOT + CAL2) if False else None
+            r, codes = _multi_request(app, "PROPPATCH", target + "/", [(True, pa, vals_a[va]), (True, pb, vals_b[vb])])
+            if codes is None:
+                return (False, kind + ":no-answer")
+            for pname, val in ((pa, vals_a[va]), (pb, vals_b[vb])):
+                if codes.get(PROPNAMES[pname]) == "200":
+                    model[pname] = val
+            if not check(app, target):
+                return (False, kind + ":first")
+            if restart_between:
+                app = restart()
+            if kind == "proppatch-set-remove":
+                r, codes = _multi_request(app, "PROPPATCH", target + "/", [(True, pa, vals_a[1 - va]), (False, pb, None)])
+                if codes is None:
+                    return (False, kind + ":no-answer")
+                if codes.get(PROPNAMES[pa]) == "200":
+                    model[pa] = vals_a[1 - va]
+                if codes.get(PROPNAMES[pb]) == "200":
+                    model[pb] = None
+        else:
+            method = "MKCOL" if kind == "mkcol" else "MKCALENDAR"
+            target = "/user/calendars/fresh"
+            r, codes = _multi_request(app, method, target, [(True, pa, vals_a[va]), (True, pb, vals_b[vb])])
+            if r.status_class != "2xx" or codes is None:
+                return (False, kind + ":refused")
+            for pname, val in ((pa, vals_a[va]), (pb, vals_b[vb])):
+                if codes.get(PROPNAMES[pname]) == "200":
+                    model[pname] = val
+            if restart_between:
+                app = restart()
+        if not check(app, target):
+            return (False, kind + ":readback")
+        app = restart()
+        if not check(app, target):
+            return (False, kind + ":after-restart")
+        # nothing else moved: the other calendar's properties are unset, members still served
+        if _propfind(app, CAL2 + "/", PROPNAMES["color"])[0] != "404" or _propfind(app, CAL2 + "/", DN) != ("200", "cal2"):
+            return (False, kind + ":other-collection")
+        for c in (mweb.CAL, CAL2):
+            g = mweb.call(app, "GET", c + "/a.ics")
+            if g.status_class != "2xx" or g.body != b"xa":
+                return (False, kind + ":member")
+        return (True, kind + (":all" if len(model) == 2 else ":partial"))
+
+
+def h_multi(how: int, a: int, b: int, va: int, vb: int, restart_between: bool) -> bool:
+    """
+    pre: 0 <= how < 4 and 0 <= a < len(MPROPS) and 0 <= b < len(MPROPS) and 0 <= va < 2 and 0 <= vb < 2
+    post: _
+    """
+    return run(body_multi, how, a, b, va, vb, restart_between)
 
 
 _B = {"quick": {"vlen": 2, "wlen": 2, "nsteps": 3}, "thorough": {"vlen": 4, "wlen": 3, "nsteps": 4}}
@@ -320,6 +459,19 @@ HARNESSES = [
                      "xandikos.carddav.AddressbookDescriptionProperty.set_value",
                      "xandikos.store.config.FileBasedCollectionMetadata._save",
                      "xandikos.store.git.RepoCollectionMetadata._write_config"]),
+    Harness("multi", h_multi, body_multi,
+            classes=[("proppatch-set-set:all", "file"), ("proppatch-set-remove:all", "git"), ("mkcalendar:all", "file"),
+                     ("mkcol:all", "git")],
+            parts={"quick": ["file", "git"]}, budget={"quick": 90, "thorough": 240},
+            describe="several properties in one request: PROPPATCH with two <set>, or <set> + <remove>; extended MKCOL / "
+                     "MKCALENDAR setting two properties on the collection it creates (displayname, colour, comment, "
+                     "calendar-order; two values each; restart in between or not): every property answered 200 reads back, "
+                     "at once and after restarts; the other calendar and all members untouched; exhaustive over the "
+                     "menu; part = metadata back end",
+            encodes=["xandikos.webdav.ProppatchMethod.handle", "xandikos.webdav.apply_modify_prop", "xandikos.webdav.MkcolMethod.handle",
+                     "xandikos.caldav.MkcalendarMethod.handle", "xandikos.webdav.propstat_as_xml",
+                     "xandikos.store.config.FileBasedCollectionMetadata._save", "xandikos.store.git.RepoCollectionMetadata._write_config",
+                     "xandikos.web.XandikosBackend.create_collection"]),
     Harness("history", h_history, body_history, classes=["history:3", "history:1"], bounds=_B,
             budget={"quick": 100, "thorough": 600},
             describe="symbolic history of <= 3/4 set / remove steps (displayname, colour; two values each) over two "
